@@ -202,19 +202,19 @@ theorem mapped_all (f : Nat → Value → Value) (es : List Value) :
 
 /-- Invariant of `map`'s loop relative to the heap `σ` in which the call started: cells of `x`, `fn`
 (`σ.size`, `σ.size+1`) and `dst` (`σ.size+5`) and the array built so far. -/
-structure AccInv (σ : St) (r cr : Nat) (acc : Nat → List Value) (i : Nat) (σ' : St) : Prop where
+structure AccInv (σ : St) (xv : Value) (cr : Nat) (acc : Nat → List Value) (i : Nat) (σ' : St) : Prop where
   ext : Ext σ σ'
   wf : WfApp σ'
-  cx : σ'.heap[σ.heap.size]? = some (.cell (.arr r) false)
+  cx : σ'.heap[σ.heap.size]? = some (.cell xv false)
   cf : σ'.heap[σ.heap.size + 1]? = some (.cell (.fn cr) false)
   dst : ∃ rd sd, σ'.heap[σ.heap.size + 5]? = some (.cell (.arr rd) false) ∧ DstArr σ' rd sd (acc i) ∧
     σ.heap.size ≤ rd
 
-theorem accInv_step {σ σ' σ2 : St} {r cr : Nat} {acc : Nat → List Value} {i : Nat} {y : Value}
-    {rd sd : Nat} (hI : AccInv σ r cr acc i σ')
+theorem accInv_step {σ σ' σ2 : St} {xv : Value} {cr : Nat} {acc : Nat → List Value} {i : Nat} {y : Value}
+    {rd sd : Nat} (hI : AccInv σ xv cr acc i σ')
     (hdc : σ'.heap[σ.heap.size + 5]? = some (.cell (.arr rd) false)) (hda : DstArr σ' rd sd (acc i))
     (hrd : σ.heap.size ≤ rd) (hacc : acc (i + 1) = acc i ++ [y]) (he2 : Ext σ' σ2) :
-    AccInv σ r cr acc (i + 1)
+    AccInv σ xv cr acc (i + 1)
       (setSt (appSt σ2 rd (acc i) y) (σ.heap.size + 5) (.cell (.arr (σ2.heap.size + 1)) false)) := by
   have hcd2 : σ.heap.size + 5 < σ2.heap.size := lt_size_of_get (he2.keep _ _ hdc)
   have hrd2 : rd < σ2.heap.size := lt_size_of_get (he2.keep _ _ hda.hdr)
@@ -263,9 +263,9 @@ theorem accInv_step {σ σ' σ2 : St} {r cr : Nat} {acc : Nat → List Value} {i
       have := he2.size_le
       omega
 
-theorem accInv_keep {σ σ' σ2 : St} {r cr : Nat} {acc : Nat → List Value} {i : Nat}
-    (hI : AccInv σ r cr acc i σ') (hacc : acc (i + 1) = acc i) (he2 : Ext σ' σ2) :
-    AccInv σ r cr acc (i + 1) σ2 := by
+theorem accInv_keep {σ σ' σ2 : St} {xv : Value} {cr : Nat} {acc : Nat → List Value} {i : Nat}
+    (hI : AccInv σ xv cr acc i σ') (hacc : acc (i + 1) = acc i) (he2 : Ext σ' σ2) :
+    AccInv σ xv cr acc (i + 1) σ2 := by
   obtain ⟨rd, sd, hdc, hda, hrd⟩ := hI.dst
   exact ⟨hI.ext.trans he2, he2.wf hI.wf, he2.keep _ _ hI.cx, he2.keep _ _ hI.cf,
     rd, sd, he2.keep _ _ hdc, by rw [hacc]; exact hda.ext he2, hrd⟩
@@ -293,8 +293,8 @@ theorem mapEnv_append {menv : Env} (h : lookupVar menv "append" = none) (σ : St
 theorem map_after_define {Fc : Nat} {σ σD : St} {menv : Env} {ctx : Ctx} {r st cr : Nat} {es : List Value}
     {f : Nat → Value → Value} (gs : GSt)
     (harr : ArrAt σ r st es) (hcb : CallsAs Fc σ cr f) (hd : ctx.callDepth < 899)
-    (happ : lookupVar menv "append" = none) (F : Nat) (hF : Fc ≤ F) (hI0 : AccInv σ r cr (mapped f es) 0 σD) :
-    ∃ σ'' rd sd, AccInv σ r cr (mapped f es) es.length σ'' ∧
+    (happ : lookupVar menv "append" = none) (F : Nat) (hF : Fc ≤ F) (hI0 : AccInv σ (.arr r) cr (mapped f es) 0 σD) :
+    ∃ σ'' rd sd, AccInv σ (.arr r) cr (mapped f es) es.length σ'' ∧
       σ''.heap[σ.heap.size + 5]? = some (.cell (.arr rd) false) ∧ DstArr σ'' rd sd (es.zipIdx.map (fun q => f q.2 q.1)) ∧
       (do let p ← execStmts (F + es.length + 11 + 2)
                     { env := mapEnv menv σ, callDepth := ctx.callDepth + 1, path := [0] }
@@ -305,7 +305,7 @@ theorem map_after_define {Fc : Nat} {σ σD : St} {menv : Env} {ctx : Ctx} {r st
   have hloop := forin_loop_run (Fb := F + 10)
     (ctx := { env := mapEnv menv σ, callDepth := ctx.callDepth + 1, path := 2 :: [0] })
     (r := r) (st := st) (es := es) (body := mapLoop) gs
-    (AccInv σ r cr (mapped f es)) (fun _ _ => none)
+    (AccInv σ (.arr r) cr (mapped f es)) (fun _ _ => none)
     (fun _ σ' h => harr.ext h.ext)
     (fun _ σ' h => ⟨σ.heap.size, false, mapEnv_x menv σ, h.cx⟩)
     (by show (ctx.callDepth + 1 == 0) = false; simp)
@@ -345,7 +345,7 @@ theorem map_run {Fc : Nat} {σ : St} {menv : Env} {ctx : Ctx} {r st cr : Nat} {e
     {f : Nat → Value → Value} (gs : GSt)
     (hb : IsEnumBound σ menv) (harr : ArrAt σ r st es) (hcb : CallsAs Fc σ cr f) (hd : ctx.callDepth < 899)
     (hwf : WfApp σ) (happ : lookupVar menv "append" = none) (F : Nat) (hF : Fc ≤ F) :
-    ∃ σ'' rd sd, AccInv σ r cr (mapped f es) es.length σ'' ∧
+    ∃ σ'' rd sd, AccInv σ (.arr r) cr (mapped f es) es.length σ'' ∧
       σ''.heap[σ.heap.size + 5]? = some (.cell (.arr rd) false) ∧ DstArr σ'' rd sd (es.zipIdx.map (fun q => f q.2 q.1)) ∧
       callClosure (F + es.length + 17) ctx ⟨["x", "fn"], false, mapBody, menv⟩ [.arr r, .fn cr] gs σ =
         .ok ((.arr rd, gs), σ'') := by
@@ -363,7 +363,7 @@ theorem map_run {Fc : Nat} {σ : St} {menv : Env} {ctx : Ctx} {r st cr : Nat} {e
   have hsz : (pushSt (pushSt (stG σ (Value.arr r) (Value.fn cr)) (Obj.store #[] 1))
       (Obj.arr (stG σ (Value.arr r) (Value.fn cr)).heap.size 0 0)).heap.size = σ.heap.size + 5 := by
     simp [pushSt_size, hG]
-  have hI0 : AccInv σ r cr (mapped f es) 0 (pushSt (pushSt (pushSt (stG σ (Value.arr r) (Value.fn cr)) (Obj.store #[] 1))
+  have hI0 : AccInv σ (.arr r) cr (mapped f es) 0 (pushSt (pushSt (pushSt (stG σ (Value.arr r) (Value.fn cr)) (Obj.store #[] 1))
       (Obj.arr (stG σ (Value.arr r) (Value.fn cr)).heap.size 0 0))
       (Obj.cell (Value.arr ((stG σ (Value.arr r) (Value.fn cr)).heap.size + 1)) false)) := by
     have he : Ext σ (pushSt (pushSt (pushSt (stG σ (Value.arr r) (Value.fn cr)) (Obj.store #[] 1))
